@@ -101,6 +101,7 @@ func freshCopy[K comparable](k K) K {
 	}
 	return c
 }
+
 type stringer interface{ String() string }
 type sval string
 
@@ -519,7 +520,11 @@ func runC10(rc *runCtx) int {
 		checkKeyType(st, "struct{string;int}", []strInt{{"", 0}, {"a", 0}, {"", 1}, {"a", 1}}, []string{`{"",0}`, `{"a",0}`, `{"",1}`, `{"a",1}`}, nil)
 		checkKeyType(st, "nested struct", []nested{{}, {P: padded{1, 2}}, {S: strInt{"x", 3}}, {padded{1, 2}, strInt{"x", 3}}}, []string{"zero", "P", "S", "PS"}, nil)
 		checkKeyType(st, "struct{float64}", []fkey{{0}, {negZero}, {1}}, []string{"{+0}", "{-0}", "{1}"}, nil)
-		ns := func(id int, f, l string) nestedStr { var x nestedStr; x.ID, x.Name.First, x.Name.Last = id, f, l; return x }
+		ns := func(id int, f, l string) nestedStr {
+			var x nestedStr
+			x.ID, x.Name.First, x.Name.Last = id, f, l
+			return x
+		}
 		checkKeyType(st, "struct{int;struct{string;string}}", []nestedStr{ns(0, "", ""), ns(1, "ada", "lovelace"), ns(1, "ada", ""), ns(1, "", "ada")}, []string{"zero", "{1,ada,lovelace}", "{1,ada,}", "{1,,ada}"}, nil)
 		checkKeyType(st, "struct{int;[2]string}", []arrStr{{}, {1, [2]string{"go", "cache"}}, {1, [2]string{"cache", "go"}}}, []string{"zero", "{1,go,cache}", "{1,cache,go}"}, nil)
 		nf := func(z int, x, y float64) nestedF { var v nestedF; v.Zoom, v.P.X, v.P.Y = z, x, y; return v }
